@@ -188,7 +188,8 @@ def is_zero_value(v):
 
 
 TYPES = ["float", "float32", "float64", "float16", "complex", "complex64", "complex128", "int64", "int32", "boolean",
-         "py:float", "py:complex", "py:int", "py:bool", "np:float32", "np:float64", "np:complex64", "np:int32"]
+         "py:float", "py:complex", "py:int", "py:bool", "np:float32", "np:float64", "np:complex64", "np:int32",
+         "list[float, float32]", "list[float32, float]", "list[float64]", "list[complex64, float32]"]
 
 
 def decode_type(t):
@@ -201,12 +202,22 @@ def decode_type(t):
     return t
 
 
+def type_shape(ty):
+    """(kind, bits) or ("list", (shapes...)) of a Type object, read from its public attributes."""
+    kind, param = getattr(ty, "kind", None), getattr(ty, "param", None)
+    if kind == "list" and isinstance(param, tuple):
+        return ("list", tuple(type_shape(p) for p in param))
+    return (kind, param)
+
+
 def expected_type(t):
     """(kind, bits) a type spelling denotes, written from the documentation of Type.fromobject."""
     import re
 
     if not isinstance(t, str):
         t = t.__name__
+    if t.startswith("list[") and t.endswith("]"):
+        return ("list", tuple(expected_type(x.strip()) for x in t[5:-1].split(",")))
     t = {"bool": "boolean", "bool_": "boolean"}.get(t, t)
     m = re.fullmatch(r"(float|complex|int|boolean)(\d*)", t)
     kind = {"int": "integer"}.get(m.group(1), m.group(1))
@@ -618,7 +629,7 @@ class Sim:
             return
         exp = expected_type(typ)  # independent of the package's own Type table
         got = r.operands[1]
-        if (getattr(got, "kind", None), getattr(got, "param", None)) != exp:
+        if type_shape(got) != exp:
             self.violation("alias", "request|symbol-type", requested=list(exp), returned=repr(r))
 
     def record_tree(self, op, res):
